@@ -385,6 +385,7 @@ SCRIPT = "printf '%s|%s|%s|%s|%s\\n' {id} \"$1\" \"$2\" \"$3\" \"$(pwd -P)\"\n"
 def run_placement(job):
     """One project: target_rel, spelling, mask (bit i set = i-th in-project candidate exists).  Returns a dict."""
     root, bindir, target_rel, cwd_rel, spelled, mask, idx = job
+    TMPSFX = common.tmp_suffix(bindir)       # (".redo.tmp" on the pinned tree; the property only says "beside the target")
     top = os.path.join(root, f"j{idx}")
     PR = os.path.join(top, "pr")
     home = os.path.join(top, "home")
@@ -502,7 +503,7 @@ def run_placement(job):
                             viol("wrong-cwd", got=cwd.replace(PRr, "{PR}"), want=c["do_dir"].replace(PRr, "{PR}"))
                         a3abs = e4.ref_clean(os.path.join(cwd, a3))
                         if os.path.dirname(a3abs) != os.path.dirname(e4.ref_clean(tpath.replace(PR, PRr, 1))) \
-                                or not a3.endswith(".redo.tmp"):
+                                or not a3.endswith(TMPSFX) or os.path.basename(a3abs) == os.path.basename(tpath):
                             viol("wrong-arg3", got=a3, resolved=a3abs.replace(PRr, "{PR}"))
         return res
     finally:
